@@ -566,6 +566,11 @@ func checkMain(prop, tier string) int {
 		skipped += r.skipped
 	}
 	sort.Slice(outs, func(i, j int) bool { return outs[i].Idx < outs[j].Idx })
+	for _, o := range outs {
+		if o.Verdict.Harness != "" {
+			die(2, "harness dependency missing (run idx %d): %s", o.Idx, o.Verdict.Harness)
+		}
+	}
 	byIdx := map[int]*world.RunOut{}
 	for _, o := range outs {
 		byIdx[o.Idx] = o
